@@ -9,6 +9,7 @@ mod ops;
 mod replay;
 mod scen_api;
 mod scen_file;
+mod scen_sink;
 mod taut;
 
 use common::*;
@@ -57,6 +58,17 @@ fn record(args: &Args) {
             }
             let panics = s.panics;
             let (n, counts) = s.log.finish();
+            println!("{}", json!({"scenario": scen, "events": n, "counts": counts, "panics": panics}));
+        }
+        "c07" | "c11" => {
+            let mut log = Log::create(&out);
+            if scen == "c07" {
+                scen_sink::c07(&mut log, seed, &tier)
+            } else {
+                scen_sink::c11(&mut log, seed, &tier)
+            }
+            let (n, counts) = log.finish();
+            let panics = counts.get("Panic").cloned().unwrap_or(0);
             println!("{}", json!({"scenario": scen, "events": n, "counts": counts, "panics": panics}));
         }
         "c08" | "c09" | "c20" | "c10raw" => {
